@@ -29,8 +29,42 @@ fn invalid_project(rng: &mut Rng) -> (Files, &'static str, Option<&'static str>)
     let mut files = Files::new();
     let nerr = 2 + rng.below(5);
     let names = ["Foo", "Bar", "Baz", "Qux", "Nope", "Zed", "Abc"];
-    let kind = rng.below(13);
+    let kind = rng.below(16);
     match kind {
+        13 => {
+            // definitions colliding with names the preamble imports into every file (the error points into
+            // the preamble, whose file id depends on the project), in a project of 1-3 files
+            let nf = 1 + rng.below(3);
+            let mut t = String::new();
+            for k in 1..nf {
+                t.push_str(&format!("use mod{}\n", k));
+                files.insert(format!("mod{}.sy", k), format!("v{} :: {}\n", k, k));
+            }
+            for k in 0..nerr.min(4) {
+                t.push_str(&format!("{} :: {}\n", ["max", "print", "min", "abs"][k], k));
+            }
+            t.push_str("start :: fn do\nend\n");
+            files.insert("main.sy".into(), t);
+            (files, "definitions colliding with preamble imports", None)
+        }
+        14 => {
+            // errors located in an imported file of a multi-file project
+            let nf = 2 + rng.below(3);
+            let mut t = String::new();
+            for k in 1..nf {
+                t.push_str(&format!("use mod{}\n", k));
+                files.insert(format!("mod{}.sy", k), format!("v{} :: {} + \"s\"\nw{} :: nope{}\n", k, k, k, k));
+            }
+            t.push_str("start :: fn do\nend\n");
+            files.insert("main.sy".into(), t);
+            (files, "type and resolution errors in several imported files", None)
+        }
+        15 => {
+            // an unresolved name with several equally close candidates (the suggestion must not depend on hash order)
+            let t = "total_xa :: 1\ntotal_xb :: 2\ntotal_xd :: 3\ncount_a :: 4\ncount_b :: 5\n\nstart :: fn do\n    print(total_xc)\n    print(count_c)\nend\n".to_string();
+            files.insert("main.sy".into(), t);
+            (files, "unresolved names with equally close candidates", None)
+        }
         8 => {
             // several unknown fields in ONE blob instantiation
             let mut t = String::from("A :: blob {\n    ok: int,\n}\n\nstart :: fn do\n    a := A {\n        ok: 1,\n");
@@ -221,7 +255,26 @@ impl Check for C16 {
         let opts = CompileOpts { no_std, require: None, fuel: Some(crate::rel::CAMPAIGN_FUEL) };
         let reps = 8;
         let mut prints: Vec<String> = Vec::new();
-        for _ in 0..reps {
+        for rep in 0..reps {
+            // between the repetitions OTHER projects (1-4 files, valid or not, with loops) are compiled in
+            // this process: nothing of them may leak into the next compilation of this project
+            if rep % 2 == 1 {
+                let nf = 1 + ((rep as usize / 2 + index as usize) % 4);
+                let mut decoy = Files::new();
+                let mut t = String::new();
+                for k in 1..nf {
+                    t.push_str(&format!("use dec{}\n", k));
+                    decoy.insert(format!("dec{}.sy", k), format!("d{} :: {}\n", k, k));
+                }
+                t.push_str("start :: fn do\n    i := 0\n    loop i < 2 do\n        i += 1\n    end\n");
+                if rep % 4 == 3 {
+                    t.push_str("    print(undefined_decoy_name)\n");
+                }
+                t.push_str("end\n");
+                decoy.insert("main.sy".into(), t);
+                let _ = sy::compile_files(&decoy, "main.sy", &opts);
+                st.count("decoy_compilations_in_between");
+            }
             let r = sy::compile_files(&files, "main.sy", &opts);
             if matches!(r, Compiled::Fuel) {
                 st.count("discarded_compile_budget");
@@ -319,7 +372,7 @@ impl Check for C16 {
         }
         Finish {
             level: "exploration",
-            rule: "projects: valid generated programs extended with wide blobs/enums; invalid projects with 2-6 independent errors (in one blob, one enum, several blobs, one function, several functions, duplicate globals, several files). Each is compiled 8x in one process (every HashMap gets a fresh RandomState) and, for 1 case in 4, 3x in fresh processes with different environment size and working directory. Fingerprint = Lua bytes, or the ordered list of (kind, file, span, Display, Debug) of the errors with ANSI colours stripped. Non-trivial: every project; distinct by content hash.".into(),
+            rule: "projects: valid generated programs extended with wide blobs/enums; invalid projects with 2-6 independent errors (in one blob, one enum, several blobs, one function, several functions, duplicate globals, several files, definitions colliding with preamble imports, unresolved names with equally close candidates). Each is compiled 8x in one process (every HashMap gets a fresh RandomState), with other projects of 1-4 files compiled in between (nothing of an earlier compilation may leak into the next), and, for 1 case in 4, 3x in fresh processes with different environment size and working directory. Fingerprint = Lua bytes, or the ordered list of (kind, file, span, Display, Debug) of the errors with ANSI colours stripped. Non-trivial: every project; distinct by content hash.".into(),
             extra: J::obj(),
             assumptions: vec!["colour codes are environment-controlled by design and are stripped".into()],
             exhaustive: false,
